@@ -32,12 +32,16 @@ Proof. exact (fun fs n H => dec_frames_prefix fs n H). Qed.
 Print Assumptions C11_cut_parses_to_prefix.
 
 (* the general statement: trunk cut at any offset n, any queue length (so an overflow at any position),
-   any schedule of reader iterations, Reads with any select choices, local Writes (on a healthy or failing
-   trunk), mux.Close and conn.Close at any moment: what a connection's holder has read, followed by what
-   is still queued for it, is a frame-wise prefix of what the peer wrote to that id *)
+   any schedule of reader iterations, Reads with any select choices and any buffers, local Writes (on a
+   healthy or failing trunk), mux.Close, conn.Close and mux.Open at any moment: the frames the Reads of a
+   connection's holder took, followed by what is still queued for it, are a frame-wise prefix of what the
+   peer wrote to that id.  (late_opened: a connection created by an Open after the start has missed the
+   frames that arrived for its id before — dropped by design, DESIGN.md I5 — and is excepted; every
+   connection of the initial set is covered whatever is opened beside it.) *)
 Theorem C11_prefix_all_schedules : forall ws n qlen opened evs id s tr,
   wf_writes ws = true -> nodupN opened = true ->
   run (init_mux (firstn n (trunk ws)) qlen opened) evs = (s, tr) ->
+  late_opened id s = false ->
   prefix (received id tr ++ queue_in id s) (written_frames id ws).
 Proof. exact (fun ws n qlen opened evs id s tr =>
   prefix_all_schedules max_payload_size ws n qlen opened evs id s tr max_payload_ok). Qed.
@@ -47,6 +51,7 @@ Print Assumptions C11_prefix_all_schedules.
 Theorem C11_overflow_prefix : forall ws qlen opened evs id s tr,
   wf_writes ws = true -> nodupN opened = true ->
   run (init_mux (trunk ws) qlen opened) evs = (s, tr) ->
+  late_opened id s = false ->
   prefix (received id tr) (written_frames id ws).
 Proof. exact overflow_prefix. Qed.
 Print Assumptions C11_overflow_prefix.
@@ -55,7 +60,7 @@ Print Assumptions C11_overflow_prefix.
    returns an error returns that one *)
 Theorem C11_error_latched : forall evs s e s' tr,
   m_err s = Some e -> run s evs = (s', tr) ->
-  m_err s' = Some e /\ (forall id pk e', In (EvRead id pk, RErr e') tr -> e' = e).
+  m_err s' = Some e /\ (forall ev e', In (ev, RErr e') tr -> is_read ev = true -> e' = e).
 Proof. exact (error_latched_run max_payload_size). Qed.
 Print Assumptions C11_error_latched.
 
@@ -66,13 +71,15 @@ Proof. exact reader_failure_closes. Qed.
 Print Assumptions C11_reader_failure_closes.
 
 (* once the mux is closed (by Close, by a failure of the reader or of a Write) no Read and no Write
-   blocks in any reachable state, and no Write succeeds *)
+   blocks in any reachable state, and no Write succeeds — on every connection, including those a
+   schedule opens (EvOpen) before or AFTER the close *)
 Theorem C11_no_block_after_close : forall ws n qlen opened evs s tr ev,
   wf_writes ws = true -> nodupN opened = true ->
   run (init_mux (firstn n (trunk ws)) qlen opened) evs = (s, tr) ->
   m_closed s = true ->
   match ev, snd (step s ev) with
   | EvRead _ _, RBlock => False
+  | EvReadB _ _ _ _, RBlock => False
   | EvWrite _ _ _, ROk => False
   | EvWrite _ _ _, RBlock => False
   | _, _ => True
@@ -80,6 +87,28 @@ Theorem C11_no_block_after_close : forall ws n qlen opened evs s tr ev,
 Proof. exact (fun ws n qlen opened evs s tr ev =>
   no_block_after_close max_payload_size ws n qlen opened evs s tr ev max_payload_ok). Qed.
 Print Assumptions C11_no_block_after_close.
+
+(* the clause spelled out for a connection opened on a Mux that is closed already (mux.Open closes it at
+   once; whether the source does so is read from mux.go on every run: MuxConsts.open_closes_on_closed):
+   Open succeeds, every Read returns the latched error (end-of-file when none was latched), every Write
+   returns end-of-file; nothing blocks *)
+Theorem C11_open_after_close_fails : forall s id,
+  m_closed s = true -> find_conn id (m_conns s) = None -> id <> reserved_conn_id ->
+  let s1 := fst (step s (EvOpen id)) in
+  snd (step s (EvOpen id)) = ROk /\ m_closed s1 = true /\
+  (forall pick, exists e, snd (step s1 (EvRead id pick)) = RErr e /\ (forall e0, m_err s = Some e0 -> e = e0)) /\
+  (forall pick bl bc, exists e, snd (step s1 (EvReadB id pick bl bc)) = RErr e /\ (forall e0, m_err s = Some e0 -> e = e0)) /\
+  (forall buf cut, snd (step s1 (EvWrite id buf cut)) = RErr EEOF).
+Proof. exact (open_after_close_fails max_payload_size). Qed.
+Print Assumptions C11_open_after_close_fails.
+
+(* the variant without that clause in Open (the code before 5cc5327) does not have the property:
+   Close, Open 6, Read 6 — the Read blocks for ever *)
+Theorem C11_open_after_close_refuted :
+  let '(s, tr) := run_var false max_payload_size (init_mux [] 4 [1]) [EvClose; EvOpen 6; EvRead 6 true] in
+  m_closed s = true /\ map snd tr = [ROk; ROk; RBlock].
+Proof. exact open_after_close_refuted. Qed.
+Print Assumptions C11_open_after_close_refuted.
 
 (* … and nothing new is queued: Reads after close drain an initial part of what was queued *)
 Theorem C11_drain_after_close : forall id evs s s' tr,
@@ -169,6 +198,15 @@ Proof. vm_compute. repeat split. Qed.
 Example C11_example_write_cut :
   let '(s, tr) := run (init_mux [] 4 [1]) [EvWrite 1 [5;6;7] (Some 10); EvWrite 1 [8] None; EvRead 1 true] in
   m_tx s = [0;0;0;1;0;0;0;3;5;6] /\ m_closed s = true /\ map snd tr = [RErr EErr; RErr EEOF; RErr EErr].
+Proof. vm_compute. repeat split. Qed.
+(* Open after an overflow closed the Mux, after a plain Close, of the reserved id, of an id that is open *)
+Example C11_example_open_after_close :
+  open_closes_on_closed = true /\
+  let evs := [EvReader; EvReader; EvReader; EvReader; EvOpen 6; EvRead 6 true; EvReadB 6 false 4 4; EvWrite 6 [1] None;
+              EvOpen 0; EvOpen 1; EvRead 1 true] in
+  let '(s, tr) := run (init_mux (trunk ex_ws) 1 [1;2]) evs in
+  m_closed s = true /\ late_opened 6 s = true /\ late_opened 1 s = false /\
+  map snd tr = [ROk; ROk; ROk; ROk; ROk; RErr EErr; RErr EErr; RErr EEOF; RErr EErr; ROk; RData [1;2;3]].
 Proof. vm_compute. repeat split. Qed.
 Example C11_example_listener :
   snd (lrun init_lst [LAccept; LAccept; LClose; LAccept; LClose; LAccept]) = [LConn; LBlock; LOk; LEof; LOk; LEof].
